@@ -50,6 +50,7 @@ type State struct {
 	ghost  map[string]*Term
 	defers []*deferRec // of the current (innermost non-inlined-complete) frame stack; managed per frame
 	writes map[string]bool
+	sealed bool // reading a heap array that is not preset is an error (spec function templates)
 }
 
 func newState() *State {
@@ -82,6 +83,9 @@ func baseHeap(key, sort string) *Term {
 func (s *State) H(key, sort string) *Term {
 	if t, ok := s.heap[key]; ok {
 		return t
+	}
+	if s.sealed {
+		panic(unsupported{"specification function reads heap " + key + " which is not in its reads clause"})
 	}
 	return baseHeap(key, sort)
 }
